@@ -36,8 +36,8 @@ func init() {
 			if tier == "thorough" {
 				mults = []float64{0, 0.3, 1, 1.5, 2.5}
 				offs = [][3]float64{{0, 0, 0}, {1, 0, 0}, {0, 1, 0}, {0, 0, 1}, {2.5, -1, 0}, {-2.5, 2.5, 1}, {0, 4, -1}, {3, 3, 2.5}}
-				mapCap = 64
-				hs = []int64{2, 3, 4, 5, 6, 10, 14, 18, 22, 25, 28, 30, 31, 33, 35}
+				mapCap = 16 // two deviations x 64 starts x ~6 map points per query does not finish in the budget
+				hs = []int64{2, 3, 4, 5, 6, 10, 18, 25, 31, 35}
 			}
 
 			return []engine.Phase{
